@@ -19,6 +19,16 @@ CHECKS = {
              "the attribute round trip for every constructor input in the stated domain, which an exhaustive runtime sweep could only sample per build.",
         design_ref="DESIGN.md section 4, C20",
         note=TB_COMMON + " ciborium round-trips a u32; num_enum into()/try_from_primitive are inverse on discriminants."),
+    "C15": dict(
+        category="proof",
+        technique="static analysis: path-sensitive MIR term propagation (guards on hit/overwrite/evict paths), sibling routing-term agreement, "
+                  "write inventory over slot and counter fields, must-pass-through and lock-acquisition discipline on the RwLock wrappers, unsafe inventory",
+        text="Proof that the table is a faithful bounded map under all interleavings: T6-T8 (no unsafe, data only behind RwLock, exactly one blocking guard "
+             "held across the whole table operation on every path) reduce every concurrent history to a sequential one; T1-T5 are structural invariants of "
+             "the sequential code (hit only under full-key equality, identical routing, slots only written Some((key, entry)), eviction only after the scan, "
+             "used_slots incremented exactly on filling an empty slot, capacity = buckets x slot count). Exploration could only sample interleavings and keys.",
+        design_ref="DESIGN.md section 4, C15",
+        note=TB_COMMON + " std::sync::RwLock gives mutual exclusion; slice iterators visit elements in index order. Zero buckets/tables excluded (property scope)."),
 }
 
 NOT_BUILT_REASON = "check not built yet (see DESIGN.md for the plan)"
